@@ -600,31 +600,20 @@ Proof.
   rewrite N.land_spec in Hn. destruct (N.testbit m n), (N.testbit b n); cbn in *; congruence.
 Qed.
 
-Definition no_setid (s : fsys) (sv : sview) (follow : bool) (cs : list str) : Prop :=
-  forall par kind name n nd, klookup s sv false follow (abs_path cs) = WNode par kind name n ->
-    get (f_heap s) n = Some nd ->
-    (match nd with NDir _ _ => True | _ => False end)
-    \/ (has (m_mode (node_meta nd)) MODE_SETUID = false /\ has (m_mode (node_meta nd)) MODE_SETGID = false).
-
+(* Chown / Lchown: the set-id bits of a non-directory are cleared on both sides ([chown_meta] / chown_common) *)
 Theorem step_chown (s : fsys) (sv : sview) (slm : slmode) (cs : list str) (uid gid : Z) :
-  step_hyps s sv -> path_ok s sv slm cs -> no_setid s sv (follow_of slm) cs ->
+  step_hyps s sv -> path_ok s sv slm cs ->
   (fst (chown_gen slm s (sv_view sv) (abs_path cs) uid gid),
    proj_res Linux (snd (chown_gen slm s (sv_view sv) (abs_path cs) uid gid)))
   = k_chown (follow_of slm) s sv (abs_path cs) uid gid.
 Proof.
-  intros H Hp Hns. pose proof (resolve s sv slm cs H Hp) as R. destruct Hp as (_ & _ & Hnf).
-  unfold chown_gen, k_chown, win, no_setid in *. rewrite (sh_os _ _ H), (sh_admin _ _ H). cbn [ostype_eqb negb].
+  intros H Hp. pose proof (resolve s sv slm cs H Hp) as R. destruct Hp as (_ & _ & Hnf).
+  unfold chown_gen, k_chown, win in *. rewrite (sh_os _ _ H), (sh_admin _ _ H). cbn [ostype_eqb negb].
   rewrite andb_false_r. cbn [orb].
   destruct (klookup s sv false (follow_of slm) (abs_path cs)) as [par kind name n|par name md| |e]; cbn [walk_rel] in R.
   - destruct R as (R1 & R2 & R3 & _). rewrite R2, R1. cbn [is_file_exists negb].
     destruct (get (f_heap s) n) as [nd|] eqn:Hg; [|congruence]. cbn [orb negb].
-    specialize (Hns _ _ _ _ nd eq_refl Hg). unfold with_owner.
-    destruct nd as [ch m|dt k i m|t m]; cbn [node_meta set_meta] in *.
-    + reflexivity.
-    + destruct Hns as [[]|(H1 & H2)]. rewrite (ldiff_absent _ _ H1), (ldiff_absent _ _ H2).
-      destruct (has (m_mode m) 8); reflexivity.
-    + destruct Hns as [[]|(H1 & H2)]. rewrite (ldiff_absent _ _ H1), (ldiff_absent _ _ H2).
-      destruct (has (m_mode m) 8); reflexivity.
+    destruct nd as [ch m|dt k i m|t m]; reflexivity.
   - destruct R as (R1 & R2 & _). rewrite R2, R1. reflexivity.
   - destruct R.
   - destruct R as (R1 & _). destruct (werr_cases _ _ R1 Hnf) as (Hc & ->).
@@ -861,7 +850,7 @@ Lemma open_wct (s : fsys) (v : view) (vi : nat) (name : str) (perm : N) :
       match get h c with
       | Some (NFile d k i m) =>
           if negb (check_permission m (N.lor om OpenWrite) (v_user v)) then (s, inl (RFail EPermDenied))
-          else (with_heap s (upd h c (NFile [] k i m)), inr (new_handle c vi name 0 om))
+          else (with_heap s (upd h c (NFile [] k i (drop_privs (v_user v) m))), inr (new_handle c vi name 0 om))
       | Some (NDir _ m) => (s, inl (RFail EIsADirectory))
       | _ => (s, inr (new_handle c vi name 0 om))
       end in
@@ -901,11 +890,11 @@ Lemma write_at_empty (b : list N) : write_at_data [] (Z.to_nat 0) b = b.
 Proof. unfold write_at_data. destruct b; cbn; rewrite ?app_nil_r; reflexivity. Qed.
 
 Lemma f_write_fresh (s1 : fsys) (v : view) (c vi : nat) (name : str) (b : list N) (k : Z) (i : N) (m : meta) :
-  name <> [] -> get (f_heap s1) c = Some (NFile [] k i m) ->
+  name <> [] -> get (f_heap s1) c = Some (NFile [] k i m) -> us_admin (v_user v) = true ->
   fst (fst (f_write s1 v (new_handle c vi name 0 82) b)) = with_heap s1 (upd (f_heap s1) c (NFile b k i m))
   /\ snd (f_write s1 v (new_handle c vi name 0 82) b) = RInt (Z.of_nat (length b)).
 Proof.
-  intros Hn Hg. unfold f_write, file_of. cbn [new_handle hd_name hd_node hd_mode hd_at]. rewrite Hg.
+  intros Hn Hg Hadm. unfold f_write, file_of, drop_privs. rewrite Hadm. cbn [new_handle hd_name hd_node hd_mode hd_at]. rewrite Hg.
   destruct name as [|c0 name]; [congruence|]. change (has 82 OpenWrite) with true. change (has 82 OpenAppend) with false.
   cbn [negb]. cbv iota. destruct b as [|b0 b'].
   - (* zero bytes: nothing is written; the heap the statement names is the same heap *)
@@ -938,12 +927,12 @@ Lemma klookup_not_parent (s : fsys) (sv : sview) (follow : bool) (p : str) a b c
 Proof. unfold klookup. destruct p; [discriminate|]. apply kwalk_not_parent. Qed.
 
 Lemma write_file_ok (s s1 : fsys) (v : view) (name : str) (data : list N) (perm : N) (c : nat) (k : Z) (i : N) (m : meta) :
-  name <> [] -> get (f_heap s1) c = Some (NFile [] k i m) ->
+  name <> [] -> get (f_heap s1) c = Some (NFile [] k i m) -> us_admin (v_user v) = true ->
   (let '(s2, _, r) := f_write s1 v (new_handle c 0 name 0 82) data in
    match r with RInt _ => (s2, ROk) | _ => (s2, r) end)
   = (with_heap s1 (upd (f_heap s1) c (NFile data k i m)), ROk).
 Proof.
-  intros Hn Hg. destruct (f_write_fresh s1 v c 0 name data k i m Hn Hg) as (E1 & E2).
+  intros Hn Hg Hadm. destruct (f_write_fresh s1 v c 0 name data k i m Hn Hg Hadm) as (E1 & E2).
   destruct (f_write s1 v (new_handle c 0 name 0 82) data) as [[s2 f'] r]. cbn [fst snd] in E1, E2. subst. reflexivity.
 Qed.
 
@@ -992,7 +981,7 @@ Section WriteFile.
       rewrite (drop_privs_admin _ _ Hadm).
       assert (Hg' : get (f_heap (with_heap s (upd (f_heap s) n (NFile [] k i m)))) n = Some (NFile [] k i m))
         by (cbn [with_heap f_heap]; apply wget_upd_same; exact (wget_lt _ _ _ Hgn)).
-      rewrite (write_file_ok s _ v _ data perm n k i m (abs_path_nonempty _) Hg').
+      rewrite (write_file_ok s _ v _ data perm n k i m (abs_path_nonempty _) Hg' Hadm).
       rewrite Hg', (drop_privs_admin _ _ Hadm). destruct data; reflexivity.
     - (* the last component is missing: create *)
       destruct Hfin as (F1 & F2 & _). destruct R as (R1 & R2 & R3 & R4).
@@ -1007,7 +996,7 @@ Section WriteFile.
       set (s1 := {| f_heap := add_child (f_heap s ++ [x]) par name (length (f_heap s));
                     f_last_id := (f_last_id s + 1)%N; f_vols := f_vols s |}) in *.
       change (get (f_heap s1) (length (f_heap s)) = Some x) in Hnew. unfold x in Hnew.
-      rewrite (write_file_ok s s1 v _ data perm (length (f_heap s)) 1 _ _ (abs_path_nonempty _) Hnew).
+      rewrite (write_file_ok s s1 v _ data perm (length (f_heap s)) 1 _ _ (abs_path_nonempty _) Hnew Hadm).
       rewrite Hnew, (drop_privs_admin _ _ Hadm). destruct data; reflexivity.
     - destruct R.
     - destruct R as (R1 & R2). destruct (werr_cases _ _ R1 Hnf) as (Hc & ->).
@@ -1269,8 +1258,8 @@ Definition covered (vi : nat) (sw : sworld) (c : call) : Prop :=
   | CLink vi' o p =>
       vi' = vi /\ exists co w cl, o = abs_path co /\ p = abs_path (w ++ [cl]) /\ path_ok s sv SlLstat co
                                   /\ path_ok s sv SlLstat (w ++ [cl]) /\ not_symlink s sv co
-  | CChown vi' p _ _ => vi' = vi /\ exists cs, p = abs_path cs /\ path_ok s sv SlEval cs /\ no_setid s sv true cs
-  | CLchown vi' p _ _ => vi' = vi /\ exists cs, p = abs_path cs /\ path_ok s sv SlLstat cs /\ no_setid s sv false cs
+  | CChown vi' p _ _ => vi' = vi /\ exists cs, p = abs_path cs /\ path_ok s sv SlEval cs
+  | CLchown vi' p _ _ => vi' = vi /\ exists cs, p = abs_path cs /\ path_ok s sv SlLstat cs
   | CReadFile vi' p => vi' = vi /\ exists cs, p = abs_path cs /\ path_ok s sv SlEval cs
   | CReadDir vi' p => vi' = vi /\ ptr_valid (f_heap s) /\ exists cs, p = abs_path cs /\ path_ok s sv SlEval cs
   | CRename vi' o p =>
@@ -1486,19 +1475,19 @@ Proof.
     + apply spec_chmod.
     + rewrite <- Hfs, Ep. exact (step_chmod (sw_fs sw) (sw_sv sw) cs mode H Hp).
   - (* Chown *)
-    destruct Hc as (-> & cs & Ep & Hp & Hns).
+    destruct Hc as (-> & cs & Ep & Hp).
     apply (world_of_lift w vi sw _ (chown_gen SlEval (w_fs w) (sv_view (sw_sv sw)) p uid gid)
              (k_chown true (sw_fs sw) (sw_sv sw) p uid gid) Ha).
     + apply (impl_lift w _ _ (wstep_chown w vi _ Hv p uid gid)); [left; discriminate|exact I].
     + apply spec_chown.
-    + rewrite <- Hfs, Ep. exact (step_chown (sw_fs sw) (sw_sv sw) SlEval cs uid gid H Hp Hns).
+    + rewrite <- Hfs, Ep. exact (step_chown (sw_fs sw) (sw_sv sw) SlEval cs uid gid H Hp).
   - (* Lchown *)
-    destruct Hc as (-> & cs & Ep & Hp & Hns).
+    destruct Hc as (-> & cs & Ep & Hp).
     apply (world_of_lift w vi sw _ (chown_gen SlLstat (w_fs w) (sv_view (sw_sv sw)) p uid gid)
              (k_chown false (sw_fs sw) (sw_sv sw) p uid gid) Ha).
     + apply (impl_lift w _ _ (wstep_lchown w vi _ Hv p uid gid)); [left; discriminate|exact I].
     + apply spec_lchown.
-    + rewrite <- Hfs, Ep. exact (step_chown (sw_fs sw) (sw_sv sw) SlLstat cs uid gid H Hp Hns).
+    + rewrite <- Hfs, Ep. exact (step_chown (sw_fs sw) (sw_sv sw) SlLstat cs uid gid H Hp).
   - (* Chtimes *)
     destruct Hc as (-> & cs & Ep & Hp).
     apply (world_of_ro w vi sw _ (chtimes (w_fs w) (sv_view (sw_sv sw)) p) (k_utimes (sw_fs sw) (sw_sv sw) p) Ha).
